@@ -15,7 +15,7 @@ CPNAME_BODY = ('{ buf := make([]byte, 12) if _, err := rand.Read(buf); err != ni
                'return fmt.Sprintf("%s:%x", BisyncCheckpointKeyPrefix, buf), nil }')
 
 PROP = {
-    "lean_modules": ["GunYu.Props.C18"],
+    "lean_modules": ["GunYu.Props.C18", "GunYu.Props.C18Nodes"],
     "audit_namespaces": ["GunYu.Props.C18"],
     "required_theorems": [
         "GunYu.Props.C18.slotTag_hits_slot",
@@ -33,13 +33,32 @@ PROP = {
         "GunYu.Props.C18.rdb_unit_single_slot_built",
         "GunYu.Props.C18.raw_first_key_commands",
         "GunYu.Props.C18.raw_stream_commands",
+        "GunYu.Props.C18.divergent_getkeys_single_slot",
+        "GunYu.Props.C18.divergent_refusal_sends_nothing",
+        "GunYu.Props.C18.consistent_nodes_every_view_single_slot",
+        "GunYu.Props.C18.uniform_nodes_same_as_single",
+        "GunYu.Props.C18.txn_flag_never_set",
+        "GunYu.Props.C18.unit_single_slot_generated",
+        "GunYu.Props.C18.sent_receiver_single_slot_or_nothing_applied",
     ],
-    "gens": ["c18", "c10"],
+    "gens": ["c18", "c10", "c13"],
     "expected_facts": {
         "bisync_key_formats": KEY_FORMATS,
         "bisync_slot_tag_format": "slot-%x",
         "bisync_slot_tag_init_body": SLOT_TAG_INIT,
         "bisync_cpname_body": CPNAME_BODY,
+        # Cluster.transactionEnable is assigned in the MULTI / EXEC cases of chooseNodeWithCmdAndKeys and nowhere else
+        "c18_txn_enable_sites": [
+            'pkg/redis/client/cluster/cluster.go:chooseNodeWithCmdAndKeys:case "EXEC":cluster.transactionEnable = false',
+            'pkg/redis/client/cluster/cluster.go:chooseNodeWithCmdAndKeys:case "MULTI":cluster.transactionEnable = true',
+        ],
+        # the command names the two unit-commit functions Put: literals and the unit's own commands (never MULTI / EXEC:
+        # the parser consumes both, C13 emitted_units_safe; the snapshot object parsers emit data commands)
+        "c18_unit_put_names": {"dispatchBisyncUnit": ['"set"', "cmd.Cmd", '"hset"', '"zadd"'], "execBisyncRdbUnit": ['"set"', "cmd.Cmd"]},
+        # the only transaction batcher of the tool is the one these two functions use, and with bidirectional sync on the
+        # plain replay path (the only code that Puts a literal MULTI / EXEC) is not reached
+        "c13_txn_batcher_sites": ["syncer/bisync.go:newBisyncTxnBatcher:conn.NewTxnBatcher()"],
+        "c13_aof_dispatch": ["if ro.bisyncEnabled() { return ro.sendAofBisync(ctx, runId, reader, offset, nsize) }", "guard-before-plain-path"],
     },
     "harness": [{"name": "C18", "pkg": "./syncer/", "test": "TestVerifC18"}],
     "driver": "drv_C18",
@@ -67,6 +86,13 @@ PROP = {
             "(bisyncRdbGlobalTargets with shuffled ranges, execBisyncRdbGlobalUnit over direct connections: one block per primary, marker on a slot that primary serves). "
             "Also: the builder's introspection connection cannot be opened while the client's COMMAND GETKEYS works (fb_builder=connfail): a command outside the tables must stop "
             "the replay, nothing of it sent; snapshot values of 1-200 elements (units beyond 64 commands: one block all the same, no block without the marker). "
+            "Nodes that answer COMMAND GETKEYS differently (vf_c18_nodes_test.go, 500 cases): three nodes each answering in its own way, the builder's iteration in a drawn order through the "
+            "real resolveBisyncCommandKeys -> real builder -> real execBisyncUnit / execBisyncRdbUnit through the real cluster txnBatcher whose k-th query is answered by the k-th drawn node -> TCP "
+            "node doubles that check the block they receive with THEIR OWN answer: outcome (none | sent … applied | sent … aborted by the receiving node, flag) vs Lean replayUnitN / nodeApplies / "
+            "txnPutAllF (the driver evaluates those definitions themselves). Monitors as the statement: the builder's own view (keys the REAL resolver returned) and every consulted answer at an "
+            "accepted Put on the unit's slot; refused before the wire => no request reached a node; refused by the receiving node => one block, refused whole, nothing else sent; applied => the "
+            "receiving node's view single-slot; accept <=> determined and single-slot judged only where all nodes name the same keys. Tie level only (model diff, no-failing-input-found): "
+            "WHICH answer the iteration settles on when nodes differ (first non-empty wins) and Cluster.transactionEnable after a commit. 200 Put sequences with literal MULTI / EXEC / SELECT vs txnPutAllF. "
             "Oracle shapes: 31 + 50 more written from the command reference (MSETEX numkeys key value…, FCALL_RO, CMS.MERGE / TDIGEST.MERGE, (SINTERSTORE/SDIFFSTORE, RENAMENX, GEOSEARCHSTORE, ZINTERSTORE/ZDIFFSTORE, "
             "GEORADIUSBYMEMBER..STOREDIST, LMPOP/ZMPOP/BLMPOP/BZMPOP, EVALSHA, FCALL, JSON.MSET, XREADGROUP, BRPOPLPUSH, BLMOVE, BRPOP, BZPOPMIN, 25 single-key commands), "
             "lower/upper/mixed-case names; corpus/C18 pins the D1 key and the two seeded-mutation inputs with their key positions. "
@@ -74,19 +100,30 @@ PROP = {
     "trusted": ["Redis Cluster HASH_SLOT as transcribed in Model/Slot.lean (C11)",
                 "key positions of the 81 generator command shapes, written from the Redis command reference (harness oracle only)",
                 "COMMAND GETKEYS on the target modelled as an arbitrary function (quantified in the theorems, 5 behaviours in the harness)"],
-    "assumptions": ["the checkpoint name contains no '{' (NewBisyncCheckpointName: prefix + ':' + hex; its body is compared with expectation and 200 generated names are checked)",
+    "assumptions": ["CLOSED (was: the checkpoint name contains no '{'): unit_single_slot_generated takes a generated name (Bisync.GenCp: NewBisyncCheckpointName for ANY random bytes - modelled, "
+                    "Model/BisyncNames.lean newCpName, tied by C13's op `c13 cpname` on the real function - or the two plain-path forms); that a name READ BACK from the checkpoint hash is generated "
+                    "is C13 resolved_names_generated (all writers of the hash modelled, source facts c13_cphash_writes / c13_localcheckpoint), given a hash that held generated names before",
                     "builder, commit order and txnBatcher models tied by correspondence; control-key constructors, marker TTL and the slot-tag table regenerated from source",
                     "client_revalidation_agrees is stated for commands chooseNodeWithCmdAndKeys routes by key spec (not PING/CLUSTER/INFO/SELECT/MGET/MSET/MSETNX/MULTI/EXEC; "
                     "MSET/MSETNX are covered by the correspondence ops) and a slot map covering all slots",
-                    "cluster.transactionEnable (set only by putting a literal MULTI) is outside the model; the bisync path never puts MULTI/EXEC",
-                    "the builder's COMMAND GETKEYS (every node asked, first answer wins) and the cluster client's (one node) are separate calls: the agreement theorems "
-                    "(client_revalidation_agrees', committed_txn_accepted) assume they answer alike on the commands the static tables do not resolve; where they differ the "
-                    "client can refuse a unit the builder accepted (Lean example; harness: replay stops, nothing of the unit sent)",
+                    "CLOSED (was: cluster.transactionEnable outside the model): modelled (Model/ClusterNodes.lean chooseNodeF / txnPutF: set by a literal MULTI, cleared by EXEC, consulted "
+                    "in the default branch only, kept when the batcher's own check then refuses the command - found by the tie) and txn_flag_never_set proves that a unit's commit "
+                    "transaction never toggles it and behaves like the flag-less model; source facts c18_txn_enable_sites (the two assignments), c18_unit_put_names, c13_txn_batcher_sites, "
+                    "c13_aof_dispatch; op c18 flag (real batcher with literal MULTI / EXEC / SELECT mixed in) and the monitor cluster-transaction-flag-set after every unit commit. Still "
+                    "assumed: the Cluster object a bisync connection uses is its own (ro.NewRedisConn per loop) - nobody else puts MULTI on it",
+                    "CLOSED (was: the builder's COMMAND GETKEYS and the cluster client's assumed to answer alike): divergent_getkeys_single_slot / divergent_refusal_sends_nothing hold for "
+                    "ARBITRARY per-node answers (keys, nothing, errors), any visiting order of the builder's iteration and any node per client query: sent => single-slot in every consulted "
+                    "view, marker first, one block; refused => nothing sent. The agreement / never-refused theorems still need the two to answer alike (uniform_nodes_same_as_single reduces "
+                    "uniform nodes to them). The RECEIVING node (owner of the unit's slot, in general not a consulted one - the client asks getRandomNode, never the node it sends to) is "
+                    "modelled: nodeBlockOk / nodeApplies = TRUSTED transcription of Redis Cluster's own check of a MULTI block (unknown command, keys on two slots or off the block's slot, slot not "
+                    "served => queue-time error, EXECABORT, nothing applied); sent_receiver_single_slot_or_nothing_applied proves: every key the receiving node extracts is on the unit's slot and "
+                    "it applies the whole block, OR it applies nothing. Exercised: the node doubles of the nodes cases check blocks with THEIR OWN answer (about 20 receiver refusals per quick run: "
+                    "one block, refused whole, commit fails, nothing outside MULTI, no second attempt - monitor best-effort-after-node-refusal); consistent_nodes_every_view_single_slot excludes "
+                    "the refusal when answering nodes agree",
                     "unit_single_slot is relative to the key positions the resolver names (regenerated keyspec tables / COMMAND GETKEYS); that those are Redis's positions is "
                     "tied by the 81 independently written shapes of the harness oracle and by C10, not proved",
                     "`replayUnit … = none` / `wire … = error` (unroutable_refused_before_send 2nd conjunct, client_refusal_sends_nothing) restate how the model composes builder "
                     "and client; that the CODE sends nothing is what refused_txn_emits_nothing (parser model, tied by C13's parse ops) and the loop monitors establish",
-                    "a checkpoint name read back from the target's checkpoint hash is assumed to be one the tool generated (brace-free); only generated names are checked",
                     "CMS.MERGE / TDIGEST.MERGE: the oracle names the DESTINATION as the only key, as the modules declare it (first=last=1) and as COMMAND GETKEYS and a cluster "
                     "node's slot check see it; sources on other slots are not found by the module on that node — a matter of the module's semantics, not of routing",
                     "slot-map holes (a slot without a known owner) refuse a single-slot unit at the client: outside the statements (Covered), exercised only by the txn ops",
@@ -118,14 +155,20 @@ PROP = {
                 "a plain EOF that sendAofBisync reports as nil is counted (loop_eof_reported_as_nil), not judged: the property needs an error REPORTED when a unit is refused "
                 "(refusal-did-not-stop-replay), not a particular value for the end of the stream",
                 "./check C18 --replay FILE re-runs the one loop case / snapshot unit / command list (build + txn + replay ops, 24 draws of commit kind and slot-map hole) the file "
-                "describes; files of the table and wiring checks (slot tags, control keys, names) carry no input and re-run the whole suite"],
+                "describes (a nodes case: the nodes' answers, visiting order and draws of the file, 6 draws of the commit kind); files of the table and wiring checks (slot tags, control keys, "
+                "names) carry no input and re-run the whole suite",
+                "nodes cases: the cluster client's COMMAND GETKEYS is the harness hook commandGetKeysFn answering per drawn node (the real commandGetKeys = getRandomNode + do is not run; that it "
+                "asks ONE node is read from the code); the builder side runs the real resolveBisyncCommandKeys over an introspector double (the real Cluster.IterateNodes visits a Go map: any order, "
+                "the model quantifies over the order); node kinds: keys = first argument / all arguments, none, empty reply, error reply, undecodable reply"],
 }
 
 MANIFEST = {
     "text": "Lean theorems over ALL command lists and ALL key resolvers: a unit built in cluster mode has every business key and every control key "
             "(marker, latest/commit record, index; constructors and the 16384-entry slot-tag table regenerated from source, table checked entry by entry "
             "in the kernel) on one HASH_SLOT; undetermined keys or two slots => error and no request; routable single-slot lists are never refused; the "
-            "cluster client's txnBatcher accepts exactly what the builder accepts and the committed transaction goes out as one MULTI block. Tied to the "
+            "cluster client's txnBatcher accepts exactly what the builder accepts and the committed transaction goes out as one MULTI block; with nodes that answer COMMAND GETKEYS "
+            "differently or with errors (any answers, any visiting order, any node per query) a unit is still sent only if it is single-slot in every view that was consulted and refused before "
+            "anything is on the wire otherwise; the cluster client's transaction flag is modelled and never set by the bidirectional path. Tied to the "
             "code by differential correspondence and by an end-to-end run through the real batcher/TCP into slot-recording node doubles with an "
             "independent bitwise HASH_SLOT oracle.",
     "note": "trusted: Lean kernel, HASH_SLOT transcription (C11), extractor, harness oracle's command shapes; hand-written models tied by correspondence",
